@@ -28,11 +28,14 @@ def run(ctx):
         ctx.validate("Prop_C14", sig=sig, distinct=distinct)
         return ctx.finish(rule="replay")
     # thorough: the small configuration with per-action coverage (vacuity report), the big one without (coverage halves TLC's speed)
-    ctx.tlc_mc("MC_Gecko", "MC_Gecko.cfg", coverage=T)
+    ctx.tlc_mc("MC_Gecko", "MC_Gecko.cfg", coverage=T, workers=8)
     if T:
         ctx.tlc_mc("MC_Gecko", "MC_Gecko_big.cfg", timeout=1200)
-    for m in ("NoDec", "Dup", "Total", "Cap", "NoGc"):
-        ctx.tlc_mc("MC_Gecko", "MC_Gecko_mut%s.cfg" % m, expect_violation=True)
+    muts = ("NoDec", "Dup", "Total", "Cap", "NoGc")
+    if not T:   # quick: two of the model mutants (rotating with the seed); thorough: all of them
+        muts = [muts[ctx.seed % len(muts)], muts[(ctx.seed + 2) % len(muts)]]
+    for m in muts:
+        ctx.tlc_mc("MC_Gecko", "MC_Gecko_mut%s.cfg" % m, expect_violation=True, workers=4)
     scns = ctx.tlc_gen("MC_Gecko", "Gen_Gecko.cfg", num=1500 if T else 120, depth=40)
     ctx.write_scenarios("gecko", scns)
     ctx.go_test("extras", "./obfs/", "TestVerif_C14$", ["harness/extras/obfs/c14_test.go"])
